@@ -36,11 +36,11 @@ func (c15) Describe() CheckInfo {
 		},
 		RealCode:       []string{"gopatch main()/mainCmd.Run, findFiles/findGoFiles, internal/*"},
 		Stubs:          []string{"package os (simulated filesystem incl. symlinks, fifo, shuffled readdir)", "path/filepath Walk re-hosted on the simulated os", "io/ioutil"},
-		RequiredProbes: []string{"excluded-dir-nested", "symlink-to-dir", "symlink-to-file", "dir-named-like-go-file", "overlapping-args", "duplicate-args", "explicit-file-in-excluded-dir", "dotdot-respelling", "absolute-arg", "non-go-file", "absolute-noncanonical-arg", "readdir-shuffled", "permuted-rerun", "dot-named-go-file", "hard-link", "non-directory-with-excluded-name", "symlink-argument", "unparseable-file-in-requested-set", "excluded-dir-named-like-go-file", "argument-through-symlinked-directory"},
+		RequiredProbes: []string{"excluded-dir-nested", "symlink-to-dir", "symlink-to-file", "dir-named-like-go-file", "overlapping-args", "duplicate-args", "explicit-file-in-excluded-dir", "dotdot-respelling", "absolute-arg", "non-go-file", "absolute-noncanonical-arg", "readdir-shuffled", "permuted-rerun", "dot-named-go-file", "hard-link", "non-directory-with-excluded-name", "symlink-argument", "unparseable-file-in-requested-set", "excluded-dir-named-like-go-file", "argument-through-symlinked-directory", "name-with-pattern-characters"},
 	}
 }
 
-var c15DirNames = []string{"a", "b", "pkg", "internal", "cmd", "vendor", "testdata", ".git", ".x", "_gen", "_", "vendor2", "testdata_old", "x.go", "sub", "v.endor", "Vendor", "_old.go", ".bak.go", "vendor.go", "testdata.go", ".go"}
+var c15DirNames = []string{"a", "b", "pkg", "internal", "cmd", "vendor", "testdata", ".git", ".x", "_gen", "_", "vendor2", "testdata_old", "x.go", "sub", "v.endor", "Vendor", "_old.go", ".bak.go", "vendor.go", "testdata.go", ".go", "api[v2]", "apiv", "api2", "w*ld", "wild"}
 
 func c15Excluded(name string) bool {
 	return name == "vendor" || name == "testdata" || strings.HasPrefix(name, ".") || strings.HasPrefix(name, "_")
@@ -105,6 +105,14 @@ func (c15) Gen(env *Env, seed uint64, tier string, i int) *Case {
 				name = fmt.Sprintf("_u%d.go", id)
 			case 2:
 				name = fmt.Sprintf("f%d_test.go", id)
+			case 3:
+				// a name that is also a shell pattern, next to a file the pattern matches
+				g := [][2]string{{"t%d[x].go", "t%dx.go"}, {"q%d?.go", "q%da.go"}, {"s%d*r.go", "s%dtar.go"}, {"[a-z]%d.go", "b%d.go"}}[r.Intn(4)]
+				name = fmt.Sprintf(g[0], id)
+				sib := d + "/" + fmt.Sprintf(g[1], id)
+				c.SetNode(world.NodeSpec{Path: sib, Kind: "file", Data: c15GoFile(id + 500)})
+				gofiles = append(gofiles, sib)
+				c.Extra["glob_name"] = "1"
 			}
 			p := d + "/" + name
 			data := c15GoFile(id)
@@ -459,6 +467,9 @@ func (c15) Eval(env *Env, c *Case) []Violation {
 	}
 	if c.Extra["has_hardlink"] == "1" {
 		env.Probe("hard-link")
+	}
+	if c.Extra["glob_name"] == "1" {
+		env.Probe("name-with-pattern-characters")
 	}
 	if c.Extra["has_nondir_excluded_name"] == "1" {
 		env.Probe("non-directory-with-excluded-name")
